@@ -68,9 +68,29 @@ def tree_copy(lru_cached_parsing_func: Callable[[str], Tree]):
             expression = args[0] if args else next(iter(kwargs.values()), None)
             parsing_logger.log(_CACHE_LOG_LEVEL, "The parsed tree for '%s' has been loaded from the cache", expression)
         # Tree.copy() is shallow (it even shares the list of children with the cached instance)
-        return copy.deepcopy(tree_result)
+        return _copy_tree(tree_result)
 
     return decorated
+
+
+def _copy_tree(tree: Tree) -> Tree:
+    """
+    Returns a copy of the tree that shares neither Tree instances nor children lists nor tokens with the original.
+    Same result as copy.deepcopy(tree), but without recursion: the trees of long expressions are deeply nested and
+    copy.deepcopy exceeds the recursion limit for them.
+    """
+    tree_copied = type(tree)(tree.data, [], meta=getattr(tree, "_meta", None))
+    stack = [(tree, tree_copied)]
+    while stack:
+        original, duplicate = stack.pop()
+        for child in original.children:
+            if isinstance(child, Tree):
+                child_copied = type(child)(child.data, [], meta=getattr(child, "_meta", None))
+                duplicate.children.append(child_copied)
+                stack.append((child, child_copied))
+            else:
+                duplicate.children.append(copy.deepcopy(child))
+    return tree_copied
 
 
 def parse_repeatability(repeatability_string: str) -> Repeatability:
